@@ -230,4 +230,40 @@ def sweep(ctx, n_leaves):
                             bad(f"style:{fam}:invalid-{what}-changed", f"rejected style {what} changed the style", {"family": fam})
         finally:
             magpy.defaults.reset()
+    # the effective style does not depend on where or how often an object is drawn: a collection of magnets shown in several
+    # subplots of one figure looks the same in each of them as in a single plot (arrow mode from a show() keyword, from the
+    # object's style or from the family default)
+    try:
+        import warnings as _w
+        for trial in range(3):
+            cube = magpy.magnet.Cuboid(polarization=(0, 0, 1), dimension=(1, 1, 1))
+            cyl = magpy.magnet.Cylinder(polarization=(0, 1, 0), dimension=(1, 1), position=(3, 0, 0))
+            target = magpy.Collection(cube, cyl) if trial != 1 else magpy.Collection(magpy.Collection(cube), cyl)
+            kw = {}
+            if trial == 0:
+                kw = {"style_magnetization_mode": "arrow"}
+            elif trial == 1:
+                cube.style.magnetization.mode = "arrow"
+                cyl.style.magnetization.mode = "arrow"
+            else:
+                magpy.defaults.display.style.magnet.magnetization.mode = "arrow"
+            before = [o.style.as_dict() for o in (cube, cyl)]
+            with _w.catch_warnings():
+                _w.simplefilter("ignore")
+                f1 = magpy.show(target, backend="plotly", return_fig=True, **kw)
+                f2 = magpy.show({"objects": target, "col": 1}, {"objects": target, "col": 2}, {"objects": target, "col": 3}, backend="plotly", return_fig=True, **kw)
+            sig = lambda traces: sorted((type(t).__name__, len(t.x) if getattr(t, "x", None) is not None else 0) for t in traces)
+            ref = sig(f1.data)
+            done += 1
+            for sc in ("scene", "scene2", "scene3"):
+                sub = sig([t for t in f2.data if (getattr(t, "scene", None) or "scene") == sc])
+                if sub != ref:
+                    bad(f"style:subplots:{['show-kwarg', 'object-style', 'family-default'][trial]}", f"a collection drawn in subplot {sc} differs from the single plot of the same objects ({len(sub)} vs {len(ref)} traces)",
+                        {"source_of_arrow_mode": ["show keyword", "object style", "family default"][trial], "subplot": sc})
+                    break
+            if [o.style.as_dict() for o in (cube, cyl)] != before:
+                bad("style:subplots:object-style-modified", "show() with subplots modified the style of a displayed object", {})
+            magpy.defaults.reset()
+    finally:
+        magpy.defaults.reset()
     return fails, {"c20_leaf_cases": done, "c20_per_family": stats}
